@@ -197,7 +197,7 @@ pub fn run(ctx: &mut Ctx) {
     crate::props::run_regressions(ctx, "C04");
 
     ctx.layer("exhaustive");
-    let dsets: Vec<DS> = { let mut v = dsets_up_to(2, t.pick(6, 7)); v.extend(dsets_up_to(3, t.pick(4, 5))); v };
+    let dsets: Vec<DS> = { let mut v = dsets_up_to(2, t.pick(6, 8)); v.extend(dsets_up_to(3, t.pick(4, 6))); v };
     let mut syms: Vec<DS> = vec![];
     let mut complete = true;
     for ds in &dsets {
@@ -205,7 +205,7 @@ pub fn run(ctx: &mut Ctx) {
         complete &= all;
         syms.extend(s);
     }
-    let note = format!("all branching assignments v <= 3 on all {} connected D-sets (dim 2 size <= {}, dim 3 size <= {}){}", dsets.len(), t.pick(6, 7), t.pick(4, 5), if complete { "" } else { ", capped per D-set" });
+    let note = format!("all branching assignments v <= 3 on all {} connected D-sets (dim 2 size <= {}, dim 3 size <= {}){}", dsets.len(), t.pick(6, 8), t.pick(4, 6), if complete { "" } else { ", capped per D-set" });
     let cases: Vec<MinCase> = syms.iter().enumerate().map(|(k, s)| MinCase { ds: s.clone(), sheets: if s.size <= 4 { 2 + k % 2 } else { 2 * (k % 2) }, pick: (k as u32).wrapping_mul(2654435761) }).collect();
     ctx.run_par(&SUB_MIN, cases, if complete { Some(&note) } else { None });
     if !complete {
@@ -242,7 +242,7 @@ pub fn run(ctx: &mut Ctx) {
     ctx.run_par(&SUB_MOR, mor, None);
 
     ctx.layer("random");
-    let n = t.pick(40_000u32, 400_000u32);
+    let n = t.pick(40_000u32, 2_000_000u32);
     let pool = std::sync::Arc::new(dsets);
     {
         let pool = pool.clone();
